@@ -29,6 +29,15 @@ CHECKS = {
        "parser oracle given to the model is computed by calling the parser outside parse_to_dict.",
   tech="Lean 4 proof (run = spec by induction over items; first-occurrence characterisation of the split) + "
        "model/implementation differential with tripwire", ref="§5 C19"),
+ "C20": dict(
+  text="Lean theorems (C20_all_slots_filled, C20_runs_all, C20_exact_in_input_order, C20_independent_of_timing, "
+       "C20_raise_first) about a discrete-event model of gather(return_exceptions=True) + the only-filter: the "
+       "yielded list equals the input-order filter for EVERY finishing permutation; tied to aiuti.asyncio by a "
+       "virtual-time differential over all outcome lists x all finishing permutations (bounded) that also compares "
+       "the completion log and checks that nothing is yielded before all awaitables finished",
+  note=NOTE_COMMON + "Assumed (validated by the completion log): asyncio.gather(return_exceptions=True) runs all "
+       "children, cancels none, slots results by input index; isinstance = the issubclass table of the six classes.",
+  tech="Lean 4 proof (slot-array invariant over any completion permutation) + virtual-time differential", ref="§5 C20"),
 }
 
 def main():
